@@ -602,7 +602,8 @@ fn create_doc_without_preceding_comment(
         comment_store,
         expression,
         &e.argument,
-        false,
+        // `--a` and `!!a` do not parse: a unary operand of a unary operator keeps its parentheses.
+        true,
       )),
     ),
     expr::E::IfElse(e) => create_doc_for_if_else(heap, comment_store, e),
